@@ -151,6 +151,13 @@ func (g *storeGenState) batch(target string, max int) []sPoint {
 		q.Time = g.freshTime(target, q.Type, q.Key)
 		ps = append(ps, p, q)
 	}
+	if g.r.Intn(10) == 0 {
+		// the first and the last instant the time column can hold are ordinary times
+		p := g.dataPoint(target)
+		p.Type, p.Key = "edge-of-time", fmt.Sprintf("%d", len(g.ops))
+		p.Time = []int64{math.MaxInt64, math.MinInt64, math.MaxInt64 - 1, math.MinInt64 + 1}[g.r.Intn(4)]
+		ps = append(ps, p)
+	}
 	g.r.Shuffle(len(ps), func(i, j int) { ps[i], ps[j] = ps[j], ps[i] })
 	return ps
 }
@@ -248,8 +255,26 @@ func (g *storeGenState) anyEdge() (string, string, bool) {
 	return "", "", false
 }
 
+// instants that do not fit the store's 64-bit nanosecond column: one nanosecond past either end, years 1, 1500,
+// 2500 and 9999 (all of them legal on the wire)
+var storeFarTimes = [][2]int64{{9223372036, 854775808}, {-9223372037, 145224191}, {-62135593200, 0}, {-14831769600, 5},
+	{16725225600, 0}, {253402300799, 999999999}}
+
 func (g *storeGenState) refused() {
-	switch g.r.Intn(7) {
+	switch g.r.Intn(9) {
+	case 7: // a time outside the representable range somewhere in a node point batch
+		n := g.pickNode()
+		ps := g.batch(n, 3)
+		f := storeFarTimes[g.r.Intn(len(storeFarTimes))]
+		i := g.r.Intn(len(ps))
+		ps[i].Far, ps[i].Time = f[0], f[1]
+		g.add("refused-time-node", sOp{Kind: "np", Node: n, Points: ps})
+	case 8: // ... or in an edge point batch
+		if p, n, ok := g.anyEdge(); ok {
+			f := storeFarTimes[g.r.Intn(len(storeFarTimes))]
+			ps := []sPoint{{Type: "sortOrder", Time: f[1], Far: f[0], VBits: g.value()}, g.tombPoint(0)}
+			g.add("refused-time-edge", sOp{Kind: "ep", Node: n, Parent: p, Points: ps})
+		}
 	case 6: // the root gets a second parent y (accepted), then y is placed below the root: a cycle through the root
 		y := fmt.Sprintf("y%d", len(g.ops))
 		g.add("root-second-parent", sOp{Kind: "ep", Node: storeRootID, Parent: y, Points: []sPoint{g.tombPoint(0), g.typePoint("device")}})
